@@ -241,8 +241,40 @@ fn run_case_here(case: &Value) -> Result<(), String> {
         "slab" => slab_case(case["count"].as_u64().unwrap() as usize, case["size"].as_u64().unwrap() as usize, case["dest"].as_u64().unwrap() as usize, case["src"].as_u64().unwrap() as usize, case["mapping"].as_u64().unwrap() as u8, case["op"].as_u64().unwrap() as u8),
         "workload" => workload(case["K"].as_u64().unwrap() as u32, case["T"].as_u64().unwrap() as u16, case["threshold"].as_u64().unwrap() as u32),
         "index" => crate::c10::replay(&json!({"kind":"index","a":case["a"],"b":case["b"],"c":0})),
+        "miri" => {
+            let ctx = Ctx { id: "C12".into(), tier: Tier::Thorough, seed: 1, verif_dir: std::env::var("RQ_VERIF_DIR").unwrap_or_else(|_| "/verif".into()).into(), start: std::time::Instant::now(), threads: 1, args: vec![] };
+            run_miri(&ctx).map(|_| ())
+        }
         _ => kern::replay_case(case, true),
     }
+}
+
+// ---------------------------------------------------------------- Miri
+fn run_miri(ctx: &Ctx) -> Result<u64, String> {
+    let dir = ctx.verif_dir.join("harness-miri");
+    let out = std::process::Command::new("cargo")
+        .arg("+nightly")
+        .arg("miri")
+        .arg("run")
+        .current_dir(&dir)
+        .env("MIRIFLAGS", "-Zmiri-disable-isolation")
+        .env("CARGO_NET_OFFLINE", "true")
+        .env_remove("RUSTFLAGS")
+        .env_remove("RQ_PAGEHEAP")
+        .output()
+        .unwrap_or_else(|e| machinery_failure(&format!("cannot run cargo miri: {}", e)));
+    let so = String::from_utf8_lossy(&out.stdout).to_string();
+    let se = String::from_utf8_lossy(&out.stderr).to_string();
+    if let Some(l) = so.lines().find(|l| l.starts_with("MIRI-OK")) {
+        if out.status.success() {
+            return Ok(l.split("cases=").nth(1).and_then(|x| x.trim().parse().ok()).unwrap_or(1));
+        }
+    }
+    if se.contains("Undefined Behavior") || se.contains("panicked at") {
+        let msg: Vec<&str> = se.lines().filter(|l| l.contains("Undefined Behavior") || l.contains("panicked at") || l.trim_start().starts_with("-->")).take(4).collect();
+        return Err(format!("Miri: {}", msg.join(" | ")));
+    }
+    machinery_failure(&format!("cargo miri did not run to completion: {}", se.lines().rev().take(8).collect::<Vec<_>>().join(" | ")))
 }
 
 // ---------------------------------------------------------------- parent side
@@ -369,6 +401,17 @@ pub fn run(ctx: &Ctx) -> i32 {
             st.count(&format!("{}/died", tag), 1);
         }
     }
+    // (5) Miri (stacked borrows) on fixed replays: thorough tier only (about one minute)
+    if ctx.thorough() {
+        match run_miri(ctx) {
+            Ok(n) => {
+                st.count("miri_cases", n);
+                st.eval(n);
+                st.nontriv(1);
+            }
+            Err(m) => st.violation("miri".into(), m, json!({"kind":"miri","pageheap":"off"})),
+        }
+    }
     st.sample(json!({"part":"kernels","pageheap":"end","case":{"op":"fused_addassign_mul_scalar_binary","kernel":"avx2","len":65,"note":"dest Vec<u8> of 65 bytes and the Vec<u64> behind the bit vector both end exactly at a PROT_NONE page"}}));
     st.sample(json!({"part":"slab","case":{"count":3,"size":9,"dest":2,"src":0,"mapping":"decoder-style into a longer slab","op":"fma"}}));
     st.sample(json!({"part":"workloads","pageheap":"start","case":{"K":26,"T":33,"threshold":"dense"}}));
@@ -376,7 +419,7 @@ pub fn run(ctx: &Ctx) -> i32 {
         level: "exploration",
         rule: "C11's kernel grid (every kernel x operation x length x content x scalar, operands as exact-size heap objects), the complete SymbolSlab pair grid (1..6 symbols x sizes x all (dest,src) incl. equal and out-of-range x 4 mappings x 3 operations) and whole encode/decode workloads (dense and sparse, three erasure patterns) executed in child processes whose global allocator places EVERY heap allocation flush against a PROT_NONE page - once at its end, once at its start - so that any out-of-bounds read or write faults; plus the slab grid's aliasing/range refusals and unchanged-neighbour checks, and the index-range facts of the unchecked table look-ups for all 65536 pairs. distinct_nontrivial = grid units / workloads executed under a guard placement.".into(),
         exhaustive: false,
-        assumptions: vec!["NEON cannot execute here".into(), "slots beyond 28000 are created without guard page (counted in pageheap_unguarded_allocations_over_cap)".into(), "stacked-borrows style aliasing is judged by Miri only in the thorough tier's fixed replays (if built)".into()],
+        assumptions: vec!["NEON cannot execute here".into(), "slots beyond 28000 are created without guard page (counted in pageheap_unguarded_allocations_over_cap)".into(), "stacked-borrows aliasing is judged by Miri only in the thorough tier, on fixed replays (complete slab pair grid up to 3x9, byte kernels at lengths 0..=40 x offsets 0..=8, one K=3 encode+decode)".into()],
         extra: Map::new(),
         must_be_nonzero: vec!["table_index_pairs", "slab_pair_cases", "end/kernels/calls_avx2", "end/kernels/pageheap_guarded_allocations", "start/kernels/calls_avx512", "end/slab/slab_pair_cases", "start/slab/slab_pair_cases", "end/workloads/workloads", "start/workloads/workloads"],
     }, replay)
